@@ -179,6 +179,32 @@ func buildC02() {
 		d := &wire.SFDatagram{Version: 5, Agent: []byte{1, 2, 3, 4}, Samples: []wire.SFSample{fs}}
 		add("sflow", fmt.Sprintf("sflow sampled header length word %d with 64 octets present", hl), dg{a4, d.Encode()})
 	}
+	// (f) declared lengths within one datagram size of 2^32: position arithmetic in 32 bits wraps, and a reader that
+	// is sent "forward" by such a length lands on or before the sample it has just read - once per SamplesNo
+	for _, cnt := range []uint32{200000, 0xffffffff} {
+		for k := uint32(1); k <= 72; k++ {
+			if k > 8 && k%4 != 0 {
+				continue
+			}
+			l := uint32(0) - k
+			for _, kind := range []string{"flow", "counter", "unknown", "enterprise"} {
+				var s wire.SFSample
+				switch kind {
+				case "flow":
+					s = wire.SFSample{TypeWord: 1, Kind: "flow", Seq: 1}
+				case "counter":
+					s = wire.SFSample{TypeWord: 2, Kind: "counter", Seq: 1}
+				case "unknown":
+					s = wire.SFSample{TypeWord: 77, Kind: "unknown", Opaque: g.Bytes(8)}
+				default:
+					s = wire.SFSample{TypeWord: 4413<<12 | 1, Kind: "unknown", Opaque: g.Bytes(8)}
+				}
+				s.LenOverride = u32p(l)
+				d := &wire.SFDatagram{Version: 5, Agent: []byte{1, 2, 3, 4}, SamplesNoOverride: u32p(cnt), Samples: []wire.SFSample{s}}
+				add("sflow", fmt.Sprintf("sflow %s sample declared length 2^32-%d, SamplesNo %d", kind, k, cnt), dg{a4, d.Encode()})
+			}
+		}
+	}
 	// many tiny samples: maximal legitimate sample count for the size
 	{
 		d := &wire.SFDatagram{Version: 5, Agent: []byte{1, 2, 3, 4}}
